@@ -4,6 +4,7 @@ import (
 	"fmt"
 	"math"
 	"os"
+	"reflect"
 	"strings"
 	"time"
 	"unsafe"
@@ -49,6 +50,57 @@ type boolPad struct {
 type ifaceField struct{ I interface{} }
 type farr struct{ F [2]float64 }
 type ptrShaped struct{ P *int }
+type nestedStr struct {
+	ID   int
+	Name struct{ First, Last string }
+}
+type arrStr struct {
+	ID   int
+	Tags [2]string
+}
+type nestedF struct {
+	Zoom int
+	P    struct{ X, Y float64 }
+}
+
+// freshCopy returns a value equal to k (Go ==) in which every string has been re-allocated: equal keys
+// whose strings live at different addresses must still be one key.
+func freshCopy[K comparable](k K) K {
+	c := k
+	var walk func(v reflect.Value)
+	walk = func(v reflect.Value) {
+		switch v.Kind() {
+		case reflect.String:
+			if s := v.String(); s != "" {
+				b := make([]byte, len(s))
+				copy(b, s)
+				reflect.NewAt(v.Type(), unsafe.Pointer(v.UnsafeAddr())).Elem().SetString(string(b))
+			}
+		case reflect.Struct:
+			for i := 0; i < v.NumField(); i++ {
+				walk(v.Field(i))
+			}
+		case reflect.Array:
+			for i := 0; i < v.Len(); i++ {
+				walk(v.Index(i))
+			}
+		case reflect.Interface:
+			if !v.IsNil() && v.Elem().Kind() == reflect.String {
+				s := v.Elem().String()
+				b := make([]byte, len(s))
+				copy(b, s)
+				nv := reflect.New(v.Elem().Type()).Elem()
+				nv.SetString(string(b))
+				reflect.NewAt(v.Type(), unsafe.Pointer(v.UnsafeAddr())).Elem().Set(nv)
+			}
+		}
+	}
+	walk(reflect.ValueOf(&c).Elem())
+	if c != k && k == k {
+		panic("freshCopy: copy differs from the original")
+	}
+	return c
+}
 type stringer interface{ String() string }
 type sval string
 
@@ -223,6 +275,9 @@ func checkKeyType[K comparable](st *c10Stats, tname string, vals []K, names []st
 	}
 	for xi, x := range vals {
 		for yi, y := range vals {
+			if yi == xi {
+				y = freshCopy(y) // the same key built a second time (strings re-allocated)
+			}
 			st.pairs++
 			for sc := range scriptNames {
 				want := runScript(sc, x, y, builtinOps[K]())
@@ -464,6 +519,11 @@ func runC10(rc *runCtx) int {
 		checkKeyType(st, "struct{string;int}", []strInt{{"", 0}, {"a", 0}, {"", 1}, {"a", 1}}, []string{`{"",0}`, `{"a",0}`, `{"",1}`, `{"a",1}`}, nil)
 		checkKeyType(st, "nested struct", []nested{{}, {P: padded{1, 2}}, {S: strInt{"x", 3}}, {padded{1, 2}, strInt{"x", 3}}}, []string{"zero", "P", "S", "PS"}, nil)
 		checkKeyType(st, "struct{float64}", []fkey{{0}, {negZero}, {1}}, []string{"{+0}", "{-0}", "{1}"}, nil)
+		ns := func(id int, f, l string) nestedStr { var x nestedStr; x.ID, x.Name.First, x.Name.Last = id, f, l; return x }
+		checkKeyType(st, "struct{int;struct{string;string}}", []nestedStr{ns(0, "", ""), ns(1, "ada", "lovelace"), ns(1, "ada", ""), ns(1, "", "ada")}, []string{"zero", "{1,ada,lovelace}", "{1,ada,}", "{1,,ada}"}, nil)
+		checkKeyType(st, "struct{int;[2]string}", []arrStr{{}, {1, [2]string{"go", "cache"}}, {1, [2]string{"cache", "go"}}}, []string{"zero", "{1,go,cache}", "{1,cache,go}"}, nil)
+		nf := func(z int, x, y float64) nestedF { var v nestedF; v.Zoom, v.P.X, v.P.Y = z, x, y; return v }
+		checkKeyType(st, "struct{int;struct{float64;float64}}", []nestedF{nf(0, 0, 0), nf(0, negZero, 0), nf(0, 0, negZero), nf(1, 0, 0)}, []string{"{0,+0,+0}", "{0,-0,+0}", "{0,+0,-0}", "{1,0,0}"}, nil)
 		checkKeyType(st, "struct{*int}", []ptrShaped{{nil}, {p}, {q}}, []string{"{nil}", "{p}", "{q}"}, toggle)
 		checkKeyType(st, "interface{}", []interface{}{nil, 1, "a", 0.0, negZero, p, q, padded{1, 2}, [2]int{1, 2}, true, ptrShaped{p}, int32(1), uint32(1), sval("a")},
 			[]string{"nil:nil", "int:1", "string:a", "float64:+0", "float64:-0", "pointer:p", "pointer:q", "struct:padded", "array:[2]int", "bool:true", "pointer-shaped struct:{p}", "int32:1", "uint32:1", "named string:sval(a)"}, toggle)
